@@ -14,10 +14,33 @@ import (
 type canonicaliser struct {
 	e     *Engine
 	st    *State
-	buf   bytes.Buffer
-	num   map[ObjID]int32
+	buf   *bytes.Buffer
+	num   []int32 // indexed by ObjID; 0 = not numbered yet
+	nnum  int32
+	ids   []ObjID // numbered objects in order
 	queue []ObjID
 	deep  bool
+}
+
+func (e *Engine) newCanon(st *State, deep bool, which int) *canonicaliser {
+	for len(e.canonBufs) <= which {
+		e.canonBufs = append(e.canonBufs, &bytes.Buffer{})
+		e.canonNums = append(e.canonNums, nil)
+	}
+	buf := e.canonBufs[which]
+	buf.Reset()
+	num := e.canonNums[which]
+	need := int(st.NextObj) + 1
+	if cap(num) < need {
+		num = make([]int32, need, need*2)
+	} else {
+		num = num[:need]
+		for i := range num {
+			num[i] = 0
+		}
+	}
+	e.canonNums[which] = num
+	return &canonicaliser{e: e, st: st, buf: buf, num: num, deep: deep}
 }
 
 func (c *canonicaliser) u8(v uint8)   { c.buf.WriteByte(v) }
@@ -36,12 +59,14 @@ func (c *canonicaliser) objRef(id ObjID) {
 		c.i32(0)
 		return
 	}
-	n, ok := c.num[id]
-	if !ok {
-		n = int32(len(c.num) + 1)
+	n := c.num[id]
+	if n == 0 {
+		c.nnum++
+		n = c.nnum
 		c.num[id] = n
 		if c.deep {
 			c.queue = append(c.queue, id)
+			c.ids = append(c.ids, id)
 		}
 	}
 	c.i32(n)
@@ -192,6 +217,9 @@ func (c *canonicaliser) thread(th *Thread) {
 	if th.ID == 0 {
 		flags |= 16
 	}
+	if th.HasSlept {
+		flags |= 32
+	}
 	c.u8(flags)
 	c.i32(int32(th.NoPreempt))
 	c.i32(int32(th.NNondet))
@@ -247,6 +275,10 @@ func (e *Engine) fnID(fn *ssa.Function) int32 {
 }
 
 func (e *Engine) typeID(t types.Type) int32 {
+	if id, ok := e.typePtrIDs[t]; ok {
+		return id
+	}
+	defer func() { e.typePtrIDs[t] = e.typeIDs[types.TypeString(t, nil)] }()
 	// types.Type identity: use string form (identical types print identically)
 	s := types.TypeString(t, nil)
 	if id, ok := e.typeIDs[s]; ok {
@@ -270,7 +302,7 @@ func (e *Engine) canon(st *State) [16]byte {
 	if len(live) > 1 {
 		keys := make([]string, len(live))
 		for i, th := range live {
-			c := &canonicaliser{e: e, st: st, num: map[ObjID]int32{}}
+			c := e.newCanon(st, false, 1)
 			c.thread(th)
 			keys[i] = c.buf.String()
 		}
@@ -288,19 +320,32 @@ func (e *Engine) canon(st *State) [16]byte {
 	st.Threads = live
 	st.Cur = 0
 	// 3. deep serialisation
-	c := &canonicaliser{e: e, st: st, num: map[ObjID]int32{}, deep: true}
+	c := e.newCanon(st, true, 0)
 	c.i32(int32(len(live)))
 	for _, th := range live {
 		c.thread(th)
 	}
 	// globals in name order
-	gs := make([]*ssa.Global, 0, len(st.Globals))
-	for g := range st.Globals {
-		gs = append(gs, g)
+	gs := e.sortedGlobals
+	reuse := len(gs) == len(st.Globals)
+	if reuse {
+		for _, g := range gs {
+			if _, ok := st.Globals[g]; !ok {
+				reuse = false
+				break
+			}
+		}
 	}
-	sort.Slice(gs, func(i, j int) bool { return gs[i].String() < gs[j].String() })
+	if !reuse {
+		gs = make([]*ssa.Global, 0, len(st.Globals))
+		for g := range st.Globals {
+			gs = append(gs, g)
+		}
+		sort.Slice(gs, func(i, j int) bool { return e.globalName(gs[i]) < e.globalName(gs[j]) })
+		e.sortedGlobals = gs
+	}
 	for _, g := range gs {
-		c.str(g.String())
+		c.str(e.globalName(g))
 		c.objRef(st.Globals[g])
 	}
 	// timers, clock, facets
@@ -331,12 +376,21 @@ func (e *Engine) canon(st *State) [16]byte {
 		}
 	}
 	// garbage-collect unreachable objects (keeps clones cheap)
-	if len(st.Heap) > len(c.num)+64 {
-		nh := make(map[ObjID]*Object, len(c.num))
-		for id := range c.num {
+	if len(st.Heap) > len(c.ids)+64 {
+		nh := make(map[ObjID]*Object, len(c.ids))
+		for _, id := range c.ids {
 			nh[id] = st.Heap[id]
 		}
 		st.Heap = nh
 	}
 	return md5.Sum(c.buf.Bytes())
+}
+
+func (e *Engine) globalName(g *ssa.Global) string {
+	if s, ok := e.globalNames[g]; ok {
+		return s
+	}
+	s := g.String()
+	e.globalNames[g] = s
+	return s
 }
